@@ -346,12 +346,13 @@ impl Property for C02 {
         "C02"
     }
     fn rule(&self) -> String {
-        "cases run in a worker process on a 2 MiB-stack thread; inputs = C01's text domain (soup / mutated corpus / lossy bytes / doc-heavy / corpus files), nesting (kind x depth log-uniform 1..200000 x closed/unclosed, depth capped below recorded overflow thresholds) and scaling units (u^k, k=256,2048,..; CPU time of the last two steps compared once the last reaches 0.25 s) x 8 language levels x doc on/off x extension bits x shared cache x special-function map; non-trivial = nesting depth >= 64, or >= 1 parse error, or a scaling unit measured at >= 2 sizes; distinct = distinct case digest".into()
+        "cases run in a worker process on a 2 MiB-stack thread; inputs = C01's text domain (soup / mutated corpus / lossy bytes / doc-heavy / corpus files; ~98.9 %), nesting (50 construct kinds x depth log-uniform 1..200000 x closed/unclosed; chain kinds capped below the recorded findings; ~1 %) and scaling units (u^k for k=256,2048,.. up to 1 MiB quick / 4 MiB thorough; thread-CPU time of the last two sizes compared once the larger reaches 0.25 s; ~0.03 %) x 8 language levels x doc on/off x extension bits x shared cache x special-function map; non-trivial = nesting depth >= 64, or >= 1 parse error, or a scaling unit measured at >= 2 sizes; distinct = distinct case digest".into()
     }
     fn assumptions(&self) -> Vec<String> {
         vec![
             "stack overflow is recognised by the Rust runtime's 'has overflowed its stack' message on the worker's stderr; other deaths keep the signal name".into(),
-            "timing clause is deliberately weak: only t(8k) >= 32*t(k) with t(8k) >= 0.25 s thread-CPU, confirmed 3 times and by a doubling step, is a violation; inputs are capped at 4 MiB (quick) so slow-growing super-linear behaviour below that is not seen".into(),
+            "timing clause is deliberately weak: a violation needs min t(8k) >= 32 * min t(k) with t(8k) >= 0.25 s thread-CPU (minima over up to 4 interleaved runs, the larger input measured without page faults) and min t(8k) >= 3 * min t(4k); quick inputs stop at 1 MiB, so super-linear growth that stays below 0.25 s at 1 MiB is not seen".into(),
+            "units whose repetition deepens the syntax tree are not timed while finding C02-F3 (quadratic time for deep chains) is open; a scaling unit whose repetition overflows the stack is left to the nesting family".into(),
         ]
     }
     fn cases(&self, tier: Tier) -> u32 {
